@@ -6,7 +6,7 @@
         accepting verdict (or on an already authenticated connection), the oracle's (the masquerade handler
         alone on a recorder) otherwise.
    Used by the generated run/C02/cases_*.v files; not part of any theorem. *)
-From Hy Require Import lib.Harness gen.ParamsC01 model.C01_ServerAuth corr.C01_Corr.
+From Hy Require Import gen.ParamsC01 model.C01_ServerAuth corr.C01_Corr.
 Local Open Scope N_scope.
 
 Record rq := mkRq {
